@@ -64,7 +64,7 @@ def pools(rng):
     """type -> list of (vclass, text).  One fresh sample per class per call."""
     P = {}
     n = rng.randint(-10 ** 6, 10 ** 6)
-    big = rng.randint(2 ** 53 + 1, 2 ** 62) | 1
+    big = rng.randint(2 ** 53 + 1, 10 ** 17) | 1   # odd, so never a double; at most 18 digits, so it has a native int64 presentation
     P['Integer'] = [
         ('plain', str(n)), ('plain', '0'), ('plain', str(rng.randint(-99, 99))), ('plus-sign', '+%d' % abs(n)),
         ('leading-zeros', '00%d' % abs(n)), ('padded', ' %d ' % n), ('exponent', '%de%d' % (rng.randint(1, 99), rng.randint(1, 5))),
@@ -98,8 +98,8 @@ def pools(rng):
         ('empty', ''), ('unicode', 'é€ß' + rng.choice('üñø')), ('numeric-text', '007'), ('single-quote', "it's"),
         ('semicolon', 'a;b'), ('backslash', 'a\\b'),
     ]
-    y, m, d = _date(rng)
-    lp = _leap(rng)
+    y, m, d = _date(rng, 1900, 2100)      # years with a native datetime64 presentation (harness limit 1700..2200)
+    lp = rng.choice([1904, 1996, 2000, 2020, 2024, 2096])
     cm = _common(rng)
     P['Date'] = [
         ('date', _ds(y, m, d)), ('date', _ds(*_date(rng, 1900, 2100))), ('datetime-space', _ds(y, m, d) + ' ' + _clock(rng)),
@@ -108,7 +108,7 @@ def pools(rng):
         ('fraction', _ds(y, m, d) + 'T' + _clock(rng) + '.%d' % rng.randint(1, 999999)), ('fraction-9-digits', _ds(y, m, d) + 'T10:30:00.123456789'),
         ('midnight-time', _ds(y, m, d) + ' 00:00:00'), ('leap-day', _ds(lp, 2, 29)), ('min-year', '1800-01-01'), ('max-year', '9999-12-31'),
         ('day>days-in-month', _ds(y, 2, 30)), ('day>days-in-month', _ds(y, rng.choice([4, 6, 9, 11]), 31)), ('feb29-common-year', _ds(cm, 2, 29)),
-        ('month-13', _ds(y, 13, 1)), ('month-00', _ds(y, 0, 10)), ('day-00', _ds(y, m, 0)), ('year<1800', _ds(rng.randint(1000, 1799), m, min(d, 28))),
+        ('month-13', _ds(y, 13, 1)), ('month-00', _ds(y, 0, 10)), ('day-00', _ds(y, m, 0)), ('year<1800', _ds(rng.randint(1700, 1799), m, min(d, 28))),
         ('year<1800', '1799-12-31'), ('year<1000', '0001-01-01'), ('year>9999', '10000-01-01'),
         ('1-digit-month-and-day', '%d-%d-%d' % (y, rng.randint(1, 9), rng.randint(1, 9))), ('1-digit-day', '%d-%02d-%d' % (y, m, rng.randint(1, 9))),
         ('1-digit-month', '%d-%d-%02d' % (y, rng.randint(1, 9), min(d, 28))), ('partial-time-HH:MM', _ds(y, m, d) + 'T12:30'),
